@@ -298,7 +298,11 @@ func ExecStore(op M) (res any) {
 var storeIDs = []string{"a", "b", "urn:uuid:3e671687-395b-41f5-a30f-a58921a69b79", "../escape", "../../etc/passwd", "/abs/olute", "a/b", "a//b", "a/../b", "./c", "c",
 	"日本語/ünï", "with space", "x\x00y", "..", ".", "\\win\\path", "https://example.com/doc#1", "https://example.com/doc#1/",
 	// identifiers that are blank but not empty
-	" ", "\t", "\n", "\u00a0"}
+	" ", "\t", "\n", "\u00a0",
+	// long namespace-like identifiers that differ in their tail only
+	longNS + "3e671687-395b-41f5-a30f-a58921a69b79", longNS + "3e671687-395b-41f5-a30f-a58921a69b7a", longNS}
+
+var longNS = "https://example.com/spdxdocs/" + strings.Repeat("team-a/project-b/", 8) + "release-"
 
 func (g *G) storeID() string {
 	switch g.Int(12) {
